@@ -5,4 +5,4 @@ Require Import ExtrOcamlBasic.
 From Coq Require Import ZArith List.
 From TS Require Import Base.F32 Model.RunC14.
 Extraction Language OCaml.
-Extraction "model.ml" run_c14_builder run_c14_builder_pinned run_from_points Z.add Z.mul Z.div_eucl Z.opp Z.compare.
+Extraction "model.ml" run_c14_builder run_c14_builder_pinned run_from_points run_c14_transform Z.add Z.mul Z.div_eucl Z.opp Z.compare.
